@@ -1,1 +1,44 @@
-//! Hooks for property C09 (empty unless needed).
+//! Hooks for property C09: a constructor for the crate-private rate-limited reader over a
+//! caller-supplied inner reader (the same `RateLimited::from_watcher` the server's `accept` uses).
+use std::{
+    pin::Pin,
+    sync::Arc,
+    task::{Context, Poll},
+};
+
+use tokio::{
+    io::{AsyncRead, ReadBuf},
+    sync::watch,
+};
+
+pub use crate::server::streams::{Bucket, InvalidBucketConfig};
+use crate::server::{ClientRateLimit, Metrics, streams::RateLimited};
+
+/// The real `RateLimited<S>` reader.
+#[derive(Debug)]
+pub struct Limited<S>(RateLimited<S>);
+
+impl<S> Limited<S> {
+    /// `RateLimited::from_watcher` as called by `http_server.rs::accept`.
+    pub fn from_watcher(
+        io: S,
+        rate_limit_watcher: watch::Receiver<Option<ClientRateLimit>>,
+    ) -> Result<Self, InvalidBucketConfig> {
+        RateLimited::from_watcher(io, rate_limit_watcher, Arc::new(Metrics::default())).map(Self)
+    }
+
+    /// How often reads have been rate-limited so far (the `limited_watcher` counter).
+    pub fn limited_count(&self) -> u64 {
+        *self.0.limited_watcher().borrow()
+    }
+}
+
+impl<S: AsyncRead + Unpin> AsyncRead for Limited<S> {
+    fn poll_read(
+        mut self: Pin<&mut Self>,
+        cx: &mut Context<'_>,
+        buf: &mut ReadBuf<'_>,
+    ) -> Poll<std::io::Result<()>> {
+        Pin::new(&mut self.0).poll_read(cx, buf)
+    }
+}
